@@ -72,7 +72,7 @@ def run(rep):
             rep.finding('unlisted', dict(c.readable(), parts=truth, implementation=got, specification=want,
                                          what='attachment condition/block: an undecodable part must be an error and never count as a match; '
                                               'a condition holds iff some part matches, a block visits every part'))
-        elif c.model is not None and ec.impl_core(c) != c.model:
+        elif c.model is not None and ec.impl_core(c) != ec.model_core(c):
             ebad.append(c)
     if ebad and not rep.violations:
         rep.violation({'obligation': 'correspondence expr_eval_attachment(_block) <-> Model/Eval.lean', 'disagreements': len(ebad),
